@@ -784,7 +784,10 @@ mod x86_64 {
         #[inline]
         pub unsafe fn write(frame: PhysFrame, flags: ApicBaseFlags) {
             let (_, old_flags) = Self::read_raw();
-            let reserved = old_flags & !(ApicBaseFlags::all().bits());
+            // `old_flags` is the raw register value: besides the flags and the reserved bits
+            // it contains the old base address (bits 12..52), which must not leak into the
+            // new value.
+            let reserved = old_flags & !(ApicBaseFlags::all().bits() | 0x000f_ffff_ffff_f000);
             let new_flags = reserved | flags.bits();
 
             unsafe {
